@@ -1,4 +1,4 @@
-import FalconModel.FinalizeTrace
+import FalconModel.FinalizeNone
 open Fz
 
 def hexD (n : Nat) : Char := if n < 10 then Char.ofNat (48+n) else Char.ofNat (87+n)
@@ -30,12 +30,15 @@ def showEv : Ev → String
 def showTrace (t : Trace) : String :=
   s!"{",".intercalate (t.events.map showEv)}|{t.closes}|{if t.raised then 1 else 0}"
 
+/-- what the stream hands out call by call: hex = a byte string, `N` = None -/
+def parseItems (cs : String) : List Fn.Item := (splitNE cs ",").map fun t => if t == "N" then none else some (fromHex t)
+
 def runCase (ws : List String) : String :=
-  let stream : Option (StreamKind × List Bytes) :=
+  let (stream, items) : Option (StreamKind × List Bytes) × List Fn.Item :=
     match (kv ws "stream").splitOn ":" with
-    | ["f", cs] => some (.fileLike, (splitNE cs ",").map fromHex)
-    | ["i", cs] => some (.iter, (splitNE cs ",").map fromHex)
-    | _ => none
+    | ["f", cs] => (some (.fileLike, (parseItems cs).filterMap id), parseItems cs)
+    | ["i", cs] => (some (.iter, Fn.cutNone (parseItems cs)), parseItems cs)
+    | _ => (none, [])
   let r : Resp := {
     status := (kv ws "status").toNat!, text := optB (kv ws "text"), data := optB (kv ws "data"),
     media := optB (kv ws "media"), stream := stream, streamFail := (kv ws "fail").toNat?,
@@ -44,7 +47,7 @@ def runCase (ws : List String) : String :=
     cookies := (splitNE (kv ws "cookies") ";").map strOfHex }
   let c : Cfg := { head := kv ws "head" == "1", appDefaultType := optS (kv ws "dflt"),
                    respDefaultType := optS (kv ws "dflt"), fileWrapper := kv ws "fw" == "1" }
-  showTrace (asgiTrace r c (kv ws "close" == "1") (kv ws "xf").toNat?)
+  showTrace (Fn.asgiTraceN r items c (kv ws "close" == "1") (kv ws "xf").toNat?)
 
 partial def loop (h : IO.FS.Stream) : IO Unit := do
   let line ← h.getLine
